@@ -80,8 +80,10 @@ def register(R):
                    ("C01", "self._total_samples == old(self._total_samples) + 1"),
                    ("C01", "self._samples_since_reset == (1 if %s else old(self._samples_since_reset) + 1)" % FRESH),
                    ("C04", "len(self._stream) == len(old(self._stream)) + 1 and self._stream[-1] == " + X0),
-                   ("C04", "self.target == " + TARGET1),
-                   ("C04", "self.sd_hat == " + SD1),
+                   # (C02: the documented carry-over -- after a drift mean and sd are re-estimated from the last burn_in
+                   # observations, whatever their values; nothing else of the previous epoch survives)
+                   ("C04,C02", "self.target == " + TARGET1),
+                   ("C04,C02", "self.sd_hat == " + SD1),
                    # the two-sided recurrences on the standardised current observation (0 while the mean is unknown)
                    ("C04", "self._upper_bound[%s] == (0 if self.target is None else %s)" % (N, SH1)),
                    ("C04", "self._lower_bound[%s] == (0 if self.target is None else %s)" % (N, SL1)),
